@@ -16,7 +16,8 @@ RULE = ("random histories (<= 9 members quick, 14 rounds): by-reference and by-v
 
 def run(ctx, pid, props, focus, what_oracle, assumptions, extra_args=(), also=()):
     n = "400" if ctx.tier == "thorough" else "40"
-    args = ["hist", "--histories", n, "--focus", focus, "--removal_bias", "1"] + list(extra_args)
+    # members on both storage providers, the group's cipher suite rotating over the suites RustCrypto ships
+    args = ["hist", "--histories", n, "--focus", focus, "--removal_bias", "1", "--sqlite", "1", "--suites", "1,2,3"] + list(extra_args)
     if ctx.tier == "thorough":
         args += ["--members", "17", "--rounds", "24"]
     return generic.standard(
